@@ -80,6 +80,7 @@ type state struct {
 	refRoot   util.Uint256
 	refDigest string
 	refPool   []util.Uint256
+	refDB     map[string]string
 }
 
 func txKey(t *transaction.Transaction) string {
@@ -273,7 +274,7 @@ func buildState(spec stateSpec, r *prng.R) *state {
 		}
 	}
 	s := ref.snapshot()
-	st.refRoot, st.refDigest, st.refPool = s.root, s.dbDigest, s.pool
+	st.refRoot, st.refDigest, st.refPool, st.refDB = s.root, s.dbDigest, s.pool, s.db
 	ref.close()
 	return st
 }
